@@ -4,6 +4,7 @@ from __future__ import annotations
 from hypothesis import strategies as st
 
 from .. import gen
+from .. import sgr
 from ..cells import build, cells, desc_of, show
 from ..common import Res, call, exc_str, hyp_campaign
 
@@ -22,12 +23,17 @@ ASSUMPTIONS = [
     "an operation that raises (e.g. width of a string with control characters) is not this property's concern; only value stability is",
 ]
 SHARDS = {"quick": 4, "thorough": 16}
-POOL_CAP = 24
+POOL_CAP = 32
 
 
-def observe(v):
+def observe(v, deep=True):
     w, e = call(lambda: v.width)
-    return (v.s, len(v), ("exc", type(e).__name__) if e is not None else w, str(v), repr(v), tuple(cells(v)))
+    ln, e2 = call(lambda: len(v))
+    displays = True
+    if deep and "\x1b" not in v.s and "\x9b" not in v.s:
+        displays = sgr.interpret(str(v))[0] == cells(v)
+    return (v.s, ("exc", type(e2).__name__) if e2 is not None else ln, ("exc", type(e).__name__) if e is not None else w, str(v), repr(v),
+            tuple(cells(v)), hash(v) == hash(str(v)), displays)
 
 
 def snapshot_of(v):
@@ -94,17 +100,19 @@ def run_case(case):
     if not pool:
         return res
 
-    def check_all(step, op):
+    def check_all(step, op, deep=True):
         for i, (v, snap) in enumerate(zip(pool, snaps)):
-            now, e = call(observe, v)
+            now, e = call(observe, v, deep)
             if e is not None:
                 res.viol("observation_raised", step=step, op=op, pool_index=i, error=exc_str(e))
                 return False
             if now != snap:
-                which = [n for n, a, b in zip(("s", "len", "width", "str", "repr", "cells"), now, snap) if a != b]
+                which = [n for n, a, b in zip(("s", "len", "width", "str", "repr", "cells", "hash_is_hash_of_str", "str_displays_cells"), now, snap) if a != b]
                 res.viol("value_changed_or_stale_cache", step=step, op=op, pool_index=i, differs=which,
                          now=[repr(x)[:80] for x in now[:5]], was=[repr(x)[:80] for x in snap[:5]], case=case)
                 return False
+            if not deep:
+                continue
             fresh, e = call(snapshot_of, v)
             if e is not None or fresh != snap:
                 res.viol("fresh_rebuild_differs", step=step, op=op, pool_index=i, case=case)
@@ -130,7 +138,7 @@ def run_case(case):
             elif name == "radd_str":
                 out = s + a
             elif name == "mul":
-                out = a * (k % 4)
+                out = a * ((k % 6) - 2)  # -2..3: negative counts behave like 0, as for str
             elif name == "slice":
                 lo = (k % (la + 3)) - 1
                 hi = ((k // 11) % (la + 3)) - 1
@@ -197,6 +205,8 @@ def run_case(case):
                     repr(a)
                 if bits & 32:
                     hash(a)
+                a.divides
+                call(lambda: a.shared_atts)
                 observed.add(i)
                 res.label("observe")
             elif name == "observe_all":
@@ -219,7 +229,7 @@ def run_case(case):
                 if len(case["ops"]) >= 4:
                     res.nontrivial = True
             add(out)
-        if not check_all(step, name):
+        if not check_all(step, name, deep=(step % 4 == 3 or step == len(case["ops"]) - 1)):
             break
     res.evals = nops
     return res
@@ -233,14 +243,14 @@ def strategy():
             "i": st.integers(0, 30),
             "j": st.integers(0, 30),
             "k": st.integers(0, 500),
-            "s": gen.text("ab \n", 0, 2),
+            "s": gen.text("ab \nＥ́", 0, 3),
             "atts": gen.atts(),
             "names": st.lists(st.sampled_from(["fg", "bg", "bold", "underline"]), max_size=2, unique=True),
         }
     )
-    return st.fixed_dictionaries({"seeds": st.lists(seed, min_size=1, max_size=3), "ops": st.lists(op, min_size=3, max_size=30)})
+    return st.fixed_dictionaries({"seeds": st.lists(seed, min_size=1, max_size=3), "ops": st.one_of(*([st.lists(op, min_size=3, max_size=30)] * 7 + [st.lists(op, min_size=40, max_size=70)]))})
 
 
 def campaign(col, tier, seed, shard, nshards):
-    n = 3000 if tier == "quick" else 64000
+    n = 2000 if tier == "quick" else 64000
     hyp_campaign(col, strategy(), run_case, max(n // nshards, 100), seed * 100 + shard)
